@@ -40,6 +40,10 @@ pub struct TrackState {
     live: Vec<(u32, Block)>,
     quarantine: Vec<(u32, Block)>,
     next_serial: u32,
+    /// storages built while this is set hold another element type on purpose (C08 clone_from destinations):
+    /// the element-layout check of `lifecycle_errors` skips them
+    pub foreign: bool,
+    foreign_serials: Vec<u32>,
     /// when set, `expand` (amortised growth) grows by doubling like Heap; always true – kept for clarity
     pub relocations: u32,
 }
@@ -151,7 +155,7 @@ impl TrackState {
         for e in &self.events {
             match e {
                 TEv::Build { serial, size: s, align: a, .. } => {
-                    if *s != size || *a != align { errs.push(format!("storage #{serial} requested with layout size={s} align={a}, element layout is size={size} align={align}")); }
+                    if (*s != size || *a != align) && !self.foreign_serials.contains(serial) { errs.push(format!("storage #{serial} requested with layout size={s} align={a}, element layout is size={size} align={align}")); }
                 }
                 TEv::Expand { serial, .. } | TEv::ExpandExact { serial, .. } | TEv::Resize { serial, .. } => {
                     if dropped.contains(serial) { errs.push(format!("storage #{serial} resized after it was released")); }
@@ -173,6 +177,8 @@ impl TrackState {
         self.errs.clear();
         self.next_serial = 0;
         self.relocations = 0;
+        self.foreign = false;
+        self.foreign_serials.clear();
     }
 }
 
@@ -199,6 +205,7 @@ impl TrackMem {
             let serial = ts.next_serial;
             ts.next_serial += 1;
             ts.events.push(TEv::Build { serial, size: layout.size(), align: layout.align(), cap });
+            if ts.foreign { ts.foreign_serials.push(serial); }
             let ptr = match new_block(&layout, cap, fence) {
                 Some(b) => { let p = b.payload; ts.live.push((serial, b)); p }
                 None => layout.align() as *mut u8,
